@@ -151,8 +151,8 @@ class UdpInverterProtocol(InverterProtocol, asyncio.DatagramProtocol):
                 self._partial_missing = 0
             if self.command.validator(data):
                 logger.debug("Received: %s", data.hex())
-                self._retry = 0
                 self.response_future.set_result(data)
+                self._retry = 0
             else:
                 logger.debug("Received invalid response: %s", data.hex())
                 asyncio.get_running_loop().call_soon(self._timeout_mechanism)
@@ -217,7 +217,6 @@ class UdpInverterProtocol(InverterProtocol, asyncio.DatagramProtocol):
         """Timeout mechanism to prevent hanging transport"""
         if self.response_future and self.response_future.done():
             logger.debug("Response already received.")
-            self._retry = 0
         else:
             if self._timer:
                 logger.debug("Failed to receive response to %s in time (%ds).", self.command, self.timeout)
@@ -295,8 +294,8 @@ class TcpInverterProtocol(InverterProtocol, asyncio.Protocol):
                 self._partial_missing = 0
             if self.command.validator(data):
                 logger.debug("Received: %s", data.hex())
-                self._retry = 0
                 self.response_future.set_result(data)
+                self._retry = 0
             else:
                 logger.debug("Received invalid response: %s", data.hex())
                 self.response_future.set_exception(RequestRejectedException())
@@ -368,7 +367,7 @@ class TcpInverterProtocol(InverterProtocol, asyncio.Protocol):
     def _timeout_mechanism(self) -> None:
         """Retry mechanism to prevent hanging transport"""
         if self.response_future.done():
-            self._retry = 0
+            logger.debug("Response already received.")
         else:
             if self._timer:
                 logger.debug("Failed to receive response to %s in time (%ds).", self.command, self.timeout)
